@@ -51,7 +51,8 @@ Definition snapshot (nlog : nat) (s : esys) : sx :=
       sx_list sx_res (results s);
       sx_str (prefix (par s));
       sx_list sx_ev (skipn nlog (rev (rlog c)));
-      L [sx_bool (oof c || C03_Vt100Parser.oof (par s) || deep c); sx_bool (unmod e)] ].
+      L [sx_bool (oof c || C03_Vt100Parser.oof (par s) || deep c); sx_bool (unmod e);
+         sx_list sx_kp (fedl c)] ].   (* every key press handlers fed with first=True so far *)
 
 Definition dec_label (s : sx) : option label :=
   match s with
